@@ -5,11 +5,13 @@ import ast
 
 from .. import astutil as A
 from ..core import AnalysisError, Collector
-from .common import DEF_ATTRS, FnCtx, fnctx, is_method_call, is_self_call, self_attr_stores
+from .. import sym as S
+from .common import DEF_ATTRS, FnCtx, fnctx, sctx, is_method_call, is_self_call, self_attr_stores
 from . import c01, c17
+from .indexfx import index_effects
 
 PROP = "C18"
-FLOORS = {"C18.R1": 20, "C18.R2": 4, "C18.R3": 3, "C18.R4": 2}
+FLOORS = {"C18.R1": 20, "C18.R2": 4, "C18.R3": 5, "C18.R4": 2}
 META = {
     "explanation": "No function on the update path (set_value, run_tasks, find_tasks, find_taskids, toposort and its worker, the run "
                    "methods of the task classes, every _set_value/_get_value/_mk_value of the reference classes) contains a handler that "
@@ -113,19 +115,18 @@ def _no_state_change_while_running(col, rule="C18.R2"):
     repo = col.repo
     ctxs, direct, unguarded, mutating = c17.classify_methods(col)
     for name in ("run_tasks", "find_tasks", "find_taskids"):
-        cx = ctxs[name]
-        st = self_attr_stores(cx.fn)
-        muts = direct[name]
-        calls_mut = [A.src(c) for c in A.calls(cx.fn) if is_self_call(c) and c.func.attr in mutating]
-        col.add(rule, f"Manager.{name}#no-manager-state-effects", not st and not muts and not calls_mut, cx.loc(st[0][1]) if st else cx.loc(cx.fn),
+        sx = sctx(repo, "Manager", name, public=True, keep=c01.ANCHORS)
+        st = [S.show(t) for e in sx.of_kind("store") for t in S.alts(e.target) if S.is_attr(t, S.SELF)]
+        fx, unk = index_effects(sx)
+        calls_mut = [S.show(ev.term) for ev, m in sx.calls_some(("call", ("attr", S.SELF, S.V("m")), S.ANY, S.ANY)) if m["m"] in mutating]
+        col.add(rule, f"Manager.{name}#no-manager-state-effects", not st and not fx and not unk and not calls_mut, sx.loc(sx.fn),
                 "running / scheduling tasks changes nothing in the manager: no attribute is written (a raise in the middle would "
                 "leave it changed), no definition or index is touched",
-                f"self attributes written: {[a for a, _ in st]}; index mutations: {[d for _, d in muts]}; calls: {calls_mut}")
+                f"self attributes written: {st}; index effects: {[e.short() for e in fx]}; calls: {calls_mut}")
     sub = Collector(repo, "C18", col.tier)
-    c01._set_value_protocol(sub)
+    c01._set_value_protocol(sub, order_rule=rule)
     for o in sub.obs:
-        if o.construct.endswith("#graph-changes-precede-write"):
-            o.rule = rule
+        if o.rule == rule:
             o.text = "in set_value every change of the definitions/indices precedes the first write to user data (queries are unaffected by a failing write)"
             col.obs.append(o)
     # task run() methods do not reach into the manager
@@ -136,22 +137,15 @@ def _no_state_change_while_running(col, rule="C18.R2"):
 
 
 def _no_early_exit(col, rule="C18.R3"):
+    """a fault-free repeat of the assignment re-runs every dependant: nothing is skipped because 'it was done already'"""
     sub = Collector(col.repo, "C18", col.tier)
     c01._set_value_protocol(sub)
+    c01._task_bodies(sub)
     for o in sub.obs:
-        if o.construct.split("#")[1] in ("write-on-every-path", "propagate-after-write", "trigger-set", "no-exception-handler"):
+        if o.construct.split("#")[1] in ("write-on-every-path", "propagate-after-write", "trigger-set", "no-exception-handler",
+                                         "writes-on-every-run", "evaluate-then-write", "calls-action"):
             o.rule = rule
             col.obs.append(o)
-    # no memoised task list / dirty flags: set_value stores nothing on self
-    cx = fnctx(col.repo, "Manager", "set_value")
-    st = self_attr_stores(cx.fn)
-    col.add(rule, "Manager.set_value#no-memoisation", not st, cx.loc(st[0][1]) if st else cx.loc(cx.fn),
-            "set_value keeps no state of its own (no cached task list, no 'unchanged' shortcut): a repeat re-runs every dependant",
-            f"{[a for a, _ in st]}")
-    # the value comparison shortcut: no comparison of the new value with the stored one guarding a return
-    rets = [n for n in cx.cfg.nodes.values() if n.kind == "stmt" and isinstance(n.ast, ast.Return) and n.id != cx.cfg.EXIT]
-    col.add(rule, "Manager.set_value#no-early-return", not rets, cx.loc(rets[0].id) if rets else cx.loc(cx.fn),
-            "set_value has no return statement before the propagation", "")
 
 
 def _retry_idempotence(col, rule="C18.R4"):
